@@ -18,7 +18,7 @@ ID = "C05"
 TECHNIQUE = "runtime monitoring: compiled prior kernels observed over exhaustively enumerated genotype spaces; independent (Dirichlet-)multinomial oracle in lgamma and exact-Fraction form"
 LEVEL = "exploration"
 LEVEL_TEXT = (
-    "Exploration with exhaustive cells: for every (ploidy 1-12, 16, 20; alleles 1-8) space with <=1716 (thorough 6435) genotypes "
+    "Exploration with exhaustive cells: for every (ploidy 1-12, 16, 20; alleles 1-8) space with <=1716 (thorough 6435) genotypes, and for pooled-sample ploidies 32-300 (incl. 127-130, 255-257) with 1-3 alleles, "
     "and a fixed grid of inbreeding values and frequency vectors (flat, random, zero-containing, extreme skew) every "
     "genotype's prior returned by the real kernels is observed: sums to one, equals the independent pmf (float and "
     "exact rational), the single-allele conditional equals the exact conditional of the genotype prior for every "
@@ -34,6 +34,7 @@ ASSUMPTIONS = ["Dirichlet-multinomial with alpha_i = f_i (1-F)/F is the document
 TOL = 1e-9
 
 F_GRID = [0.0, 1e-3, 0.1, 0.5, 0.9, 0.999]
+HIGH_PLOIDIES = [32, 64, 100, 127, 128, 129, 130, 160, 200, 255, 256, 257, 300]
 
 
 def cells(tier):
@@ -43,6 +44,13 @@ def cells(tier):
         for na in range(1, 9):
             n = math.comb(na + ploidy - 1, ploidy)
             if n <= lim:
+                out.append((ploidy, na, n))
+    # ploidies of pooled samples (a pool of 32 tetraploids has ploidy 128): few alleles, every genotype; dose counters of
+    # one allele pass 127 / 255 here
+    for ploidy in HIGH_PLOIDIES:
+        for na in (1, 2, 3):
+            n = math.comb(na + ploidy - 1, ploidy)
+            if n <= (9000 if tier == "quick" else 50000) and (na < 3 or tier != "quick" or ploidy in (127, 128, 130)):
                 out.append((ploidy, na, n))
     return out
 
@@ -62,7 +70,7 @@ def plan(tier, seed):
 
 def required(tier):
     return {"sum_to_one_cells": 300, "pmf_checked": 50000, "conditional_checked": 50000, "assemble_vs_call": 2000,
-            "exact_fraction_checked": 2000, "zero_freq_cells": 20}
+            "exact_fraction_checked": 2000, "zero_freq_cells": 20, "high_ploidy_cells": 20}
 
 
 def coverage_extra(tier, col):
@@ -100,7 +108,13 @@ def run_cell(ploidy, na, rng, col, K, spec_name, tier="quick"):
     arr = np.array(gs, dtype=np.int64).reshape(len(gs), ploidy)
     n_extra = 0 if tier == "quick" else (4 if len(gs) <= 1000 else 1)
     Fs = list(F_GRID) + [float(rng.uniform(0.001, 0.99)) for _ in range(1 + n_extra)]
-    for fname, f in freq_vectors(rng, na, extra=n_extra):
+    fvs = freq_vectors(rng, na, extra=n_extra)
+    high = ploidy > 20
+    if high:
+        col.count("high_ploidy_cells")
+        Fs = [0.0, 0.1, float(rng.uniform(0.001, 0.99))] + ([0.9] if len(gs) <= 1000 else [])
+        fvs = [fv for fv in fvs if fv[0] in ("none", "rand", "zeros", "rational")]
+    for fname, f in fvs:
         for F in Fs:
             cell = {"ploidy": ploidy, "n_alleles": na, "F": F, "freq": None if f is None else f.tolist()}
             lps = np.empty(len(gs))
@@ -143,9 +157,13 @@ def run_cell(ploidy, na, rng, col, K, spec_name, tier="quick"):
                         col.violation("prior-differs-from-dirichlet-multinomial", "exact rational prior of %s = %s (%.12g) but kernel gives %.12g" % (gs[i], ex, float(ex), got),
                                       {"kind": "genotype", "genotype": list(gs[i]), **cell})
             # single-allele conditional == exact conditional of the genotype prior
-            if (ploidy <= 6 and na <= 6) or len(gs) <= 500:
+            if (ploidy <= 6 and na <= 6) or len(gs) <= 500 or high:
                 lookup = {g: lps[i] for i, g in enumerate(gs)}
                 rests = M.genotypes_vcf_order(na, ploidy - 1) if ploidy > 1 else [()]
+                if len(rests) > 500:
+                    # high-ploidy cells: the extreme rests (one allele carrying nearly every copy) plus a random sample
+                    pick = sorted(set([0, 1, len(rests) - 1, len(rests) - 2] + [int(x) for x in rng.integers(0, len(rests), size=40)]))
+                    rests = [rests[i] for i in pick]
                 nb = 0
                 for rest in rests:
                     # unnormalised conditional weights: P(G'_b) * count_b(G'_b)
